@@ -15,6 +15,7 @@ def check(run, only=None):
     simple.gen_and_replay(run, "C08", nontrivial=nontrivial, only=only)
 
     if only is None:
+        simple.tags_src(run, "C08")
         # binding T: seeded random programs over the whole schema, accepted by TLC against the reference executor
         exectrace.run_exec_trace(run, 20000 if run.tier == "thorough" else 1000, 8)
 
